@@ -331,7 +331,7 @@ def build(spec):
         b = rng.standard_normal(shp) + (1j * rng.standard_normal(shp) if bcplx else 0)
         if k is not None and k >= 2 and spec.get("colscale", bool(rng.random() < 0.35)):
             # load cases of very different magnitude in ONE block (exact power-of-two factors): every column is its own system
-            cs = np.array([1.0, 2.0 ** -30, 2.0 ** -37][:k])
+            cs = np.array(([1.0, 2.0 ** -30, 2.0 ** -37] * k)[:k])
             b = b * rng.permutation(cs)[None, :]
         choices = solver_choices(cls, sparse, cplx)
         sname = spec.get("solver", choices[int(rng.integers(0, len(choices)))] if rng.random() < 0.6 else None)
@@ -778,6 +778,14 @@ def specs(ctx):
                 for sname in solver_choices(cls, sparse, cplx):
                     for rep in range(1 if quick else 4):
                         out.append({"stream": "linsolve", "seed": seed(), "cls": cls, "sparse": sparse, "cplx": cplx, "solver": sname})
+    # SQUARE blocks of right-hand sides (k == n), with and without the LDA wrapper: the "vector or block" distinction of a solver
+    # must go by the number of dimensions, never by a length that happens to coincide
+    for cls in ("diag", "spd", "general"):
+        for n_ in (2, 3, 4):
+            for lda in (False, True):
+                for sparse in ((False, True) if not quick else (bool(R.random() < 0.5),)):
+                    out.append({"stream": "linsolve", "seed": seed(), "cls": cls, "sparse": sparse, "cplx": bool(R.random() < 0.3),
+                                "solver": None, "n": n_, "k": n_, "lda": lda, "decouple": False})
     # truthful user flags x matrix class, automatic solver choice (no override): complex symmetric (damped dynamic stiffness,
     # indefinite, shifted), complex Hermitian, real symmetric; dense and sparse; vector and block right-hand sides
     for cls, cplx in (("dynstiff", True), ("csymindef", True), ("csym", True), ("spd", True), ("symindef", True),
